@@ -512,9 +512,10 @@ func run(c *vf.Ctx) {
 			return out
 		}, &idx)
 	} else {
-		// thorough: 10-row programs, every program against itself, its three successors, the API program
+		// thorough: 5-row programs (two slices per table), every program against itself, its three successors, the API program
 		// and the mixed program, with 1 preemption ...
-		n := len(progs)
+		progs5 := programsN(true, 5)
+		n := len(progs5)
 		near := func(m int) func(i int) []int {
 			return func(i int) []int {
 				seen := map[int]bool{}
@@ -528,9 +529,9 @@ func run(c *vf.Ctx) {
 				return out
 			}
 		}
-		stageB(c, progs, 1, near(n), &idx)
-		// ... and 2-row programs against themselves and the mixed program with 2 preemptions
-		tiny := programsN(false, 2)
+		stageB(c, progs5, 1, near(n), &idx)
+		// ... and 1-row programs against themselves and the mixed program with 2 preemptions
+		tiny := programsN(false, 1)
 		stageB(c, tiny, 2, func(i int) []int {
 			if i == len(tiny)-1 {
 				return []int{i}
@@ -546,7 +547,7 @@ func replay(raw json.RawMessage) (string, bool) {
 	if err := json.Unmarshal(raw, &p); err != nil {
 		return err.Error(), false
 	}
-	progs := append(append(append(append(programs(true), programsN(false, 5)...), programsN(true, 2)...), programsN(false, 2)...), programs(false)...)
+	progs := append(append(append(append(programs(true), programsN(false, 5)...), programsN(true, 5)...), programsN(false, 1)...), programs(false)...)
 	find := func(n string) *program {
 		for i := range progs {
 			if progs[i].name == n {
